@@ -622,7 +622,11 @@ RunOut run_plan(const std::vector<std::string>& lines, uint64_t run_index)
    for (int i = 0; i < nt; ++i) { conc[i].resize(plan.tasks[i].size()); seq[i].resize(plan.tasks[i].size()); alt[i].resize(plan.tasks[i].size()); }
    TaskArgs ta{&plan, &conc, &mod_c};
    g_prog.set(run_index, 1, "simulated");
+   // uninitialised heap memory reads 0xFF.. (NaN as a double) in the simulated execution, 0x00.. in the program-order
+   // reference and 0x7B.. in the alternative one: a result computed from never-written heap memory cannot agree
+   thrsim::set_malloc_fill(0xFF);
    thrsim::run_tasks(nt, task_body, &ta, plan.cfg);
+   thrsim::set_malloc_fill(0x00);
    out.sim = thrsim::result();
 
    // 2. sequential references on this thread, no simulator: program order ...
@@ -633,6 +637,7 @@ RunOut run_plan(const std::vector<std::string>& lines, uint64_t run_index)
    g_check_copy = false;
    out.seq_events = thrsim::sequential_events();
    // ... and either reverse task order, or every operation twice in a row
+   thrsim::set_malloc_fill(0x7B);
    g_prog.set(run_index, 3, "sequential-alt");
    g_inject_stale_thread_state = true; g_inject_counter = 0; // (a function of the plan only, not of the run index: replays must see the same values)
    struct StaleOff { ~StaleOff() { g_inject_stale_thread_state = false; errno = 0; std::feclearexcept(FE_ALL_EXCEPT); } } stale_off;
